@@ -1190,6 +1190,16 @@ func (x *Exec) modObjKeysOfContract(fc *FuncContract, cc *ssa.CallCommon, objOf 
 				}
 				continue
 			}
+			if q, ok := e.X.(*ESel); ok {
+				if id, ok := q.X.(*EIdent); ok && ptypes[id.Name] == nil {
+					// pkg.T.f: whole field of a type of another package
+					d := &EvalCtx{x: x, pkg: fc.Pkg}
+					if t := d.resolveType(id.Name + "." + q.F); t != nil {
+						fieldKeys(t, e.F)
+						continue
+					}
+				}
+			}
 			curObj = baseObj(e.X)
 			fieldKeys(typeOfExpr(e.X), e.F)
 			curObj = ""
@@ -2346,11 +2356,16 @@ func (x *Exec) raise(p *Path, k *Cont) {
 	p.recovered = false
 	after := func(p *Path) {
 		if p.recovered {
-			// a deferred call recovered the panic: the function returns normally with its result variables
-			// (modelled as zero values: none of the verified functions that recover has named results set before)
+			// a deferred call recovered the panic: the function returns normally with its result variables (named
+			// results: the recover block reads them; unnamed results are zero values)
 			p.recovered = false
 			p.panicking = was
 			p.trace = append(p.trace, "recovered")
+			if rb := fr.fn.Recover; rb != nil {
+				// go/ssa's recover block: loads the named results (a deferred call may have set them) and returns
+				x.execFrom(p, rb, 0, k)
+				return
+			}
 			var res []Val
 			rs := fr.fn.Signature.Results()
 			for i := 0; i < rs.Len(); i++ {
